@@ -4,7 +4,7 @@ CONSTANTS
   Preset = "cons"
   K = {0, 1, 2}
   MaxRows = 3
-  MaxVal = 4
+  MaxVal = 3
   Modes2 = {"plain", "ignore", "replace", "odku"}
   MaxId = 6
 VIEW View
